@@ -31,7 +31,7 @@ macro "pg" : tactic => `(tactic| repeat (first
   | apply withSome_good
   | exact heapString_good _
   | exact vecGuard_good _ _
-  | apply PGood.forEach
+  | apply PGood.each
   | pgood_step))
 
 theorem i32Enum_good (ok : Nat → Bool) : PGood (i32Enum ok) := by unfold i32Enum; pgood
@@ -70,7 +70,7 @@ theorem layer_good (off : UInt32) : PGood (layer off) := by
   apply PGood.bind (layerHead_good _); intro h
   apply PGood.bind layerRefs_good; intro r
   apply PGood.bind (offsetTable_good _); intro offs
-  apply PGood.bind (PGood.forEach _ (fun o => instanceObject_good _ _ o)); intro _
+  apply PGood.bind (PGood.each _ (fun o => instanceObject_good _ _ o)); intro _
   apply PGood.bind (refList_good _ _ obSetRef_good); intro _
   exact refList_good _ _ obSetEnableRef_good
 
@@ -89,7 +89,7 @@ theorem reader_good : PGood reader := by
   apply PGood.bind PGood.u32le; intro layerCount
   apply PGood.ite PGood.failP
   apply PGood.bind (offsetTable_good _); intro offs
-  exact PGood.forEach _ layer_good
+  exact PGood.each _ layer_good
 
 theorem fromExisting_good (b : Bytes) : Good (budget b.length) (fromExisting b) :=
   PGood.run reader_good b
